@@ -374,13 +374,30 @@ func (fx *FnCtx) frameCheck(st *State, pc *Term, p *PtrInfo) {
 	case PGlobal:
 		fx.safety("frame", pc, False, "write to package-level variable "+p.Global.Name())
 	case PObj:
-		ok := tc.IdxLe(fx.root.entryNAlloc, p.Ref)
+		ok := fx.freshRef(p.Ref)
 		n := len(tc.Layout(p.Typ).Leaves)
 		for _, it := range fx.root.frame {
-			if it.Kind != PObj || !types.Identical(it.Root, p.Root) {
+			if it.Kind != PObj {
+				continue
+			}
+			// the embedded objects of a frame item that covers its whole object are covered too
+			if it.N == 0 {
+				if stt, isS := it.Root.Underlying().(*types.Struct); isS {
+					for i := 0; i < stt.NumFields(); i++ {
+						if embeddedFields[stt.Field(i)] && types.Identical(stt.Field(i).Type(), p.Root) {
+							ok = Or(ok, Eq(p.Ref, tc.embRef(it.Ref, i)))
+						}
+					}
+				}
+			}
+			if !types.Identical(it.Root, p.Root) {
 				continue
 			}
 			if it.N != 0 && !(it.Off <= p.Off && p.Off+n <= it.Off+it.N) {
+				continue
+			}
+			if it.Ref == nil {
+				ok = True // objects(T): any object of this type
 				continue
 			}
 			ok = Or(ok, Eq(p.Ref, it.Ref))
@@ -399,6 +416,24 @@ func (fx *FnCtx) frameCheck(st *State, pc *Term, p *PtrInfo) {
 		}
 		fx.frameCheckRange(st, pc, p.Root, p.Arr, p.Idx, tc.IdxAdd(p.Idx, tc.IdxNum(1)))
 	}
+}
+
+// freshRef: the reference was allocated by the function under verification (or is an embedded
+// object of such an object), so writing through it needs no frame.
+func (fx *FnCtx) freshRef(ref *Term) *Term {
+	tc := fx.tc
+	n0 := fx.root.entryNAlloc
+	if !tc.relaxRefs {
+		return tc.IdxLe(n0, ref)
+	}
+	base := tc.IdxNum(embBase)
+	var parent *Term
+	if tc.Mode == ModeBV {
+		parent = bvBin("bvudiv", bvBin("bvsub", ref, base), BVNum(64, 64))
+	} else {
+		parent = IDivE(ISub(ref, base), IntNum(64))
+	}
+	return Or(And(tc.IdxLe(n0, ref), tc.IdxLt(ref, base)), And(tc.IdxLe(base, ref), tc.IdxLe(n0, parent)))
 }
 
 func (fx *FnCtx) frameCheckRange(st *State, pc *Term, el types.Type, arr, lo, hi *Term) {
@@ -448,6 +483,19 @@ func (fx *FnCtx) evalFrame(env *Env, exprs []SpecExpr, srcs []string) []FrameIte
 			}
 		case *SCall:
 			// all(x): every field of the object x points to
+			if x.Fun == "objects" && len(x.Args) == 1 {
+				// objects(T): any object of struct type T (a whole linked structure)
+				id, ok := x.Args[0].(*SIdent)
+				if !ok {
+					fx.fail("modifies %s: objects(TypeName)", src)
+				}
+				t := fx.resolveType(id.Name, env.pkg)
+				if t == nil {
+					fx.fail("modifies %s: unknown type", src)
+				}
+				out = append(out, FrameItem{Kind: PObj, Root: t, Ref: nil, Src: src})
+				continue
+			}
 			if x.Fun == "all" && len(x.Args) == 1 {
 				sv := fx.evalSpec(env, x.Args[0])
 				p := fx.asPtr(sv.V)
@@ -455,6 +503,25 @@ func (fx *FnCtx) evalFrame(env *Env, exprs []SpecExpr, srcs []string) []FrameIte
 					fx.fail("modifies %s: not an object pointer", src)
 				}
 				out = append(out, FrameItem{Kind: PObj, Root: p.Root, Ref: p.Ref, Src: src})
+				continue
+			}
+			if x.Fun == "lockstate" && len(x.Args) == 1 {
+				sv := fx.evalSpec(env, x.Args[0])
+				p := fx.asPtr(sv.V)
+				if p.Kind != PObj || p.Off != 0 {
+					fx.fail("modifies %s: not a pointer to a mutex object", src)
+				}
+				fx.ghostHeap(env.st, "G:lock")
+				out = append(out, FrameItem{Kind: PGhost, Ref: p.Ref, Src: "G:lock"})
+				continue
+			}
+			if x.Fun == "mapof" && len(x.Args) == 1 {
+				// mapof(m): the contents of map m
+				sv := fx.evalSpec(env, x.Args[0])
+				if _, ok := sv.V.T.Underlying().(*types.Map); !ok {
+					fx.fail("modifies %s: not a map", src)
+				}
+				out = append(out, FrameItem{Kind: PMap, Root: sv.V.T.Underlying(), Ref: sv.V.L[0], Src: src})
 				continue
 			}
 			if x.Fun == "object" && len(x.Args) == 1 {
@@ -535,6 +602,35 @@ func (fx *FnCtx) evalFrame(env *Env, exprs []SpecExpr, srcs []string) []FrameIte
 func (fx *FnCtx) havocFrame(st *State, pc *Term, items []FrameItem, base string) {
 	tc := fx.tc
 	for _, it := range items {
+		if it.Kind == PGhost {
+			h := fx.ghostHeap(st, it.Src)
+			st.Heaps[it.Src] = Store(h, it.Ref, Fresh(base+"_lock", tc.IdxSort()))
+			continue
+		}
+		if it.Kind == PMap {
+			mh := fx.mapInfo(it.Root)
+			for _, n := range append([]string{mh.dom, mh.ln}, mh.vals...) {
+				hi := fx.V.heapLeaves[n]
+				h := fx.mapHeap(st, n)
+				nv := Fresh(base+"_"+n, hi.Sort.Elem)
+				if n == mh.ln {
+					fx.assume(tc.Ge0(nv))
+				}
+				st.Heaps[n] = Store(h, it.Ref, nv)
+			}
+			continue
+		}
+		if it.Kind == PObj && it.Ref == nil {
+			// objects(T): every object of the type may have changed
+			for _, lf := range tc.Layout(it.Root).Leaves {
+				name := objHeapName(it.Root, lf)
+				fx.Heap(st, name, lf)
+				nw := Fresh(base+"_"+name, tc.heapSort(name, lf))
+				fx.noteHeapSymbol(nw, name, lf)
+				st.Heaps[name] = nw
+			}
+			continue
+		}
 		lay := tc.Layout(it.Root)
 		leaves := lay.Leaves
 		if it.Kind == PObj && it.N != 0 {
@@ -619,6 +715,13 @@ func (fx *FnCtx) addArrHeaps(ms *modSet, el types.Type) {
 	for _, lf := range fx.tc.Layout(el).Leaves {
 		name := arrHeapName(el, lf)
 		ms.heaps[name] = heapInfo{lf, fx.tc.heapSort(name, lf)}
+	}
+}
+
+func (fx *FnCtx) addMapHeaps(ms *modSet, mt types.Type) {
+	mh := fx.mapInfo(mt)
+	for _, n := range append([]string{mh.dom, mh.ln}, mh.vals...) {
+		ms.heaps[n] = fx.V.heapLeaves[n]
 	}
 }
 
@@ -724,9 +827,11 @@ func (fx *FnCtx) instrMods(ins ssa.Instruction, ms *modSet, depth int) {
 	case *ssa.MakeSlice:
 		fx.addArrHeaps(ms, elemTypeOf(t.Type()))
 		ms.alloc = true
-	case *ssa.MakeMap, *ssa.MapUpdate:
-		ms.all = true
-		ms.why = "map operation in loop"
+	case *ssa.MakeMap:
+		fx.addMapHeaps(ms, t.Type())
+		ms.alloc = true
+	case *ssa.MapUpdate:
+		fx.addMapHeaps(ms, t.Map.Type())
 	case *ssa.MakeInterface:
 		ms.alloc = true
 	case *ssa.Convert:
@@ -755,8 +860,7 @@ func (fx *FnCtx) instrMods(ins ssa.Instruction, ms *modSet, depth int) {
 			case "copy":
 				fx.addArrHeaps(ms, elemTypeOf(call.Args[0].Type()))
 			case "delete":
-				ms.all = true
-				ms.why = "map delete in loop"
+				fx.addMapHeaps(ms, call.Args[0].Type())
 			}
 		case *ssa.Function:
 			fx.calleeMods(f, ms, call, depth)
@@ -803,6 +907,28 @@ func (fx *FnCtx) contractMods(fc *FuncContract, ms *modSet, call *ssa.CallCommon
 	ms.alloc = true
 	for i, e := range fc.Modifies {
 		_ = i
+		if sc, ok := e.(*SCall); ok && sc.Fun == "objects" && len(sc.Args) == 1 {
+			if id, isId := sc.Args[0].(*SIdent); isId {
+				var pkg *types.Package
+				for _, p := range fx.V.prog.AllPackages() {
+					if p.Pkg.Path() == fc.Pkg {
+						pkg = p.Pkg
+					}
+				}
+				if t := fx.resolveType(id.Name, pkg); t != nil {
+					fx.addObjHeaps(ms, t, 0, 0)
+					continue
+				}
+			}
+			ms.all = true
+			ms.why = "objects() with unknown type"
+			return
+		}
+		if sc, ok := e.(*SCall); ok && sc.Fun == "lockstate" {
+			fx.ghostHeap(&State{Heaps: map[string]*Term{}}, "G:lock")
+			ms.heaps["G:lock"] = fx.V.heapLeaves["G:lock"]
+			continue
+		}
 		root := specRootIdent(e)
 		var pt types.Type
 		if fn, ok := call.Value.(*ssa.Function); ok && !call.IsInvoke() {
@@ -830,6 +956,8 @@ func (fx *FnCtx) contractMods(fc *FuncContract, ms *modSet, call *ssa.CallCommon
 		switch u := pt.Underlying().(type) {
 		case *types.Slice:
 			fx.addArrHeaps(ms, u.Elem())
+		case *types.Map:
+			fx.addMapHeaps(ms, pt)
 		case *types.Pointer:
 			if _, ok := e.(*SSlice); ok {
 				ms.all = true
@@ -889,6 +1017,19 @@ func (fx *FnCtx) havocLoop(li *loopInfo, st *State, pc *Term) {
 		}
 		st.Locals[r] = v
 	}
+	// iterators advanced inside the loop: their visited sets change
+	for b := range li.blocks {
+		for _, ins := range b.Instrs {
+			if nx, ok := ins.(*ssa.Next); ok {
+				if r, ok := nx.Iter.(*ssa.Range); ok {
+					name := fx.iterName(r)
+					if cur, ok := st.Ghost[name]; ok {
+						st.Ghost[name] = Value{T: cur.T, L: []*Term{Fresh(lname+"_"+name, cur.L[0].Sort)}}
+					}
+				}
+			}
+		}
+	}
 	for _, g := range fx.ghostAssignedInLoop(li) {
 		cur := st.Ghost[g]
 		nv := Value{T: cur.T, L: make([]*Term, len(cur.L))}
@@ -903,6 +1044,32 @@ func (fx *FnCtx) havocLoop(li *loopInfo, st *State, pc *Term) {
 		st.NAlloc = n
 	}
 	for name, hi := range ms.heaps {
+		if name[0] == 'G' {
+			// ghost heap: no frame is kept across the loop; invariants must say what is needed
+			st.Heaps[name] = Fresh(lname+"_"+name, hi.Sort)
+			continue
+		}
+		if name[0] == 'M' {
+			// map heaps: maps outside the modifies frame that existed at entry are unchanged
+			pre := fx.mapHeap(st, name)
+			nw := Fresh(lname+"_"+name, hi.Sort)
+			if hi.Leaf.Kind == "len" {
+				rr := BoundVar("r", tc.IdxSort())
+				s := Select(nw, rr)
+				fx.assume(Forall([]*Term{rr}, tc.Ge0(s), []*Term{s}))
+			}
+			r := BoundVar("r", tc.IdxSort())
+			inFrame := False
+			for _, it := range fx.root.frame {
+				if it.Kind == PMap && strings.HasPrefix(name, "M:"+typeKey(it.Root)+":") {
+					inFrame = Or(inFrame, Eq(r, it.Ref))
+				}
+			}
+			body := Implies(And(tc.IdxLt(r, fx.root.entryNAlloc), Not(inFrame)), Eq(Select(nw, r), Select(pre, r)))
+			fx.assume(Implies(pc, Forall([]*Term{r}, body)))
+			st.Heaps[name] = nw
+			continue
+		}
 		pre := fx.Heap(st, name, hi.Leaf)
 		nw := Fresh(lname+"_"+name, hi.Sort)
 		fx.noteHeapSymbol(nw, name, hi.Leaf)
@@ -915,7 +1082,11 @@ func (fx *FnCtx) havocLoop(li *loopInfo, st *State, pc *Term) {
 					continue
 				}
 				if fx.frameCoversLeaf(it, name) {
-					inFrame = Or(inFrame, Eq(r, it.Ref))
+					if it.Ref == nil {
+						inFrame = True
+					} else {
+						inFrame = Or(inFrame, Eq(r, it.Ref))
+					}
 				}
 			}
 			body := Implies(And(tc.IdxLt(r, fx.root.entryNAlloc), Not(inFrame)), Eq(Select(nw, r), Select(pre, r)))
